@@ -1,7 +1,8 @@
 #!/bin/sh
-# usage: benignsweep.sh "C14 C12"  - run the quick tier of each property against its benign (property-preserving)
+# usage: benignsweep.sh "C14 C12 C02:C01"   (P:D = run check P against the benign changes written for D)  - run the quick tier of each property against its benign (property-preserving)
 # changes under /verif/benign/<PROP>/benign*.diff; every VIOLATION here is a false alarm of the check
-for P in $1; do for f in /verif/benign/$P/benign*.diff; do
-  out=$(/verif/mut.sh $P $f 2>&1 | grep -a "signature=\|^VIOLATION\|^mut.sh\|DOES NOT\|harness error\|build of" | cut -c1-300)
-  echo "== $P $(basename $f): $(echo "$out" | tail -1)"; echo "$out" | grep -a "signature=" | head -3
+for PD in $1; do P=${PD%%:*}; D=${PD##*:}; for f in /verif/benign/$D/benign*.diff; do
+  extra=""; [ "$P" = "C01" ] && extra="--engines e1"
+  out=$(/verif/mut.sh $P $f $extra 2>&1 | grep -a "signature=\|^VIOLATION\|^mut.sh\|DOES NOT\|harness error\|build of" | cut -c1-300)
+  echo "== $P (changes of $D) $(basename $f): $(echo "$out" | tail -1)"; echo "$out" | grep -a "signature=" | head -3
 done; done
